@@ -53,6 +53,7 @@ class World:
                                      [None, 0, 1], "A") if three_d else (None, None)
         self.X = np.array([[0.8, 2.0], [1.5, 3.0], [2.5, 2.5], [4.0, 5.0], [0.0, 1.0]])
         self.X3 = np.array([[0.8, 2.0, 1.0], [2.5, 2.5, 3.0]])
+        self.Xneg = np.array([-1.0, 0.0, 0.5, 2.0, 7.0])
         self.P = np.array([0.1, 0.5, 0.99])
         self.S = np.asarray(self.A.draw_sample(400, random_state=12), dtype=float)
         g = getattr(virocon, getter)
@@ -68,7 +69,7 @@ class World:
         self.tmp = None
 
     def snapshot_parts(self, digits=None):
-        parts = {"A": self.A, "A3": self.A3, "X": self.X, "X3": self.X3, "P": self.P, "S": self.S, "D": self.D, "T": self.T,
+        parts = {"A": self.A, "A3": self.A3, "X": self.X, "X3": self.X3, "Xneg": self.Xneg, "P": self.P, "S": self.S, "D": self.D, "T": self.T,
                  "W": self.W, "B": self.B, "B2": self.B2, "Bdesc": self.Bdesc, "B2desc": self.B2desc}
         return {k: history.digest(v, digits if k in ("W", "B", "B2", "Bdesc", "B2desc") else None) for k, v in parts.items()}
 
@@ -173,6 +174,18 @@ def ev_readonly_inputs(w):
     return tuple(r)
 
 
+def ev_all_families_writable(w):
+    """every family evaluated on the caller's own (writable) arrays, incl. zeros and negative values"""
+    out = []
+    for fam in zoo.FAMILIES:
+        d = zoo.make(fam, zoo.MID[fam])
+        out.append(_res(d.pdf(w.Xneg)))
+        out.append(_res(d.cdf(w.Xneg)))
+        out.append(_res(d.icdf(w.P)))
+        out.append(_res(d.pdf(w.X[:, 0])))
+    return tuple(out)
+
+
 def ev_B2_eval(w):
     # evaluating the second getter result (unfitted or fitted) must not change anything either
     try:
@@ -187,6 +200,7 @@ EVENTS = {
     "joint_cdf": ("eval", lambda w: _res(w.A.cdf(w.X[0]))),
     "dist_methods": ("eval", ev_dist_methods),
     "readonly_inputs": ("eval", ev_readonly_inputs),
+    "all_families_writable": ("eval", ev_all_families_writable),
     "marginals": ("eval", lambda w: (_res(w.A.marginal_pdf(w.X[:1, 1], 1)), _res(w.A.marginal_cdf(w.X[:1, 1], 1)),
                                      _res(w.A.marginal_icdf(w.P, 0)))),
     "draw_sample": ("eval", lambda w: _res(w.A.draw_sample(50, random_state=9))),
@@ -383,7 +397,7 @@ def run_case(case):
 def main(ctx):
     ctx.rule = ("explicit-state BFS per predefined getter (6): state = history of events, canonical form = deep digest of every "
                 "attribute of the models A (2-D), A3 (3-D), both getter results B/B' (descriptions and models), the template T and "
-                "its conditional wrapper, and the caller-owned arrays X, P, S, D; alphabet = 22 events (pdf/cdf/icdf of distributions "
+                "its conditional wrapper, and the caller-owned arrays X, P, S, D; alphabet = 23 events (pdf/cdf/icdf of distributions "
                 "and joint model with array, list and read-only inputs, marginals, seeded sampling, IFORM, ISORM, HDC, direct "
                 "sampling, AND, OR, design conditions, three plot functions, save, 3-D evaluation, getter again, fit(B), fit(B'), "
                 "fit(wrapper)); search until the canonical state set closes. Every transition re-executes the event on fresh "
